@@ -43,7 +43,6 @@ CREATE_GUARDS = [
     ("count<=MAX", [PredTrue("len(denoms)<=MAX", rel(DEN, "<=", r"^Const\(4_usize\)$"))], ()),
     ("fees paid", [TryOk(r"helpers::validate_fees_are_paid$")], ()),
     ("no extra funds", [TryOk(r"helpers::validate_no_additional_funds_sent_with_pool_creation$")], ()),
-    ("no duplicate denom", [PredFalse("any(duplicate denom)", lambda pn, pa: pn == "any" and origin_match(pa[0], DEN, require_all=False))], ()),
     ("fees valid", [TryOk(r"mantra_dex_std::fee::.*::is_valid$")], ()),
     ("identifier valid", [TryOk(r"helpers::validate_pool_identifier$")], ()),
     ("identifier unused", [PredFalse("pool exists", lambda pn, pa: pn == "is_ok" and origin_match(pa[0], r"^Store\(POOLS\)"))], ()),
@@ -58,6 +57,7 @@ def run(W, chk):
     for (name, cuts, extra) in CREATE_GUARDS:
         no_effects(chk, W, "CUT-create", "pool_manager", ("CreatePool",), cuts, " [%s]" % name, effects=pool_writes, extra=extra)
 
+    duplicate_guard(W, chk)
     A = W.run("pool_manager", "execute", ("CreatePool",))
     # ---- the only Send is the exact creation fee to the exact fee collector
     sends = A.aggs(r"BankMsg::Send$")
@@ -173,6 +173,50 @@ def run(W, chk):
                        "saved under the key it was loaded from", "pool loaded with %s but saved under %s" % (sorted(lk), sorted(key)), where(e))
     chk.expect(n_upd >= 4, "WHO-field-writes", "anchor-count", "%d POOLS update sites analysed" % n_upd,
                "only %d POOLS update sites found (expected perform_swap, provide_liquidity, withdraw_liquidity, update_config)" % n_upd, "")
+
+
+def has_pairwise_eq(v, depth=0):
+    """does the value's computation compare two elements of asset_denoms with each other?"""
+    if depth > 8:
+        return False
+    for a in v.atoms:
+        if isinstance(a[0], tuple) and a[0][0] == "pred":
+            if a[0][1] in ("eq", "ne") and len(a[0]) > 3 and exact_origins(a[0][2]) == {"msg.CreatePool.asset_denoms[*]"} \
+                    and exact_origins(a[0][3]) == {"msg.CreatePool.asset_denoms[*]"}:
+                return True
+            for x in a[0][2:]:
+                if hasattr(x, "atoms") and has_pairwise_eq(x, depth + 1):
+                    return True
+    for k, f in v.fields.items():
+        if has_pairwise_eq(f, depth + 1):
+            return True
+    return False
+
+
+def duplicate_guard(W, chk):
+    """distinct assets: some decision that compares asset_denoms elements pairwise cuts the creating save.
+    Accepted spellings: `iter().any(|a| iter().filter(|b| b == a).count() > 1)`, nested loops with a flag,
+    or a local helper returning the verdict."""
+    A = W.run("pool_manager", "execute", ("CreatePool",))
+    pair = any(has_pairwise_eq(e.vals[0]) for e in A.events if e.kind in ("switch", "invoke") and e.vals)
+    cands = [PredFalse("any(duplicate denom)", lambda pn, pa: pn == "any" and origin_match(pa[0], DEN, require_all=False)),
+             PredTrue("any(duplicate denom)'", lambda pn, pa: pn == "any" and origin_match(pa[0], DEN, require_all=False))]
+    for e in A.calls_id(r"^pool_manager::"):
+        rid = e.extra.get("rid") or ""
+        sub = [x for x in A.events if x.kind in ("switch", "invoke") and x.vals and any(c == rid for c in x.chain())]
+        if e.fn.endswith("create_pool") and any(has_pairwise_eq(x.vals[0]) for x in sub):
+            cands += [CallTrue(re.escape(rid) + "$", "helper says duplicate", True), CallTrue(re.escape(rid) + "$", "helper says distinct", False)]
+    good = None
+    for c in cands:
+        pol = CutPolicy([c])
+        B = W.run("pool_manager", "execute", ("CreatePool",), pol)
+        if c.name in pol.hits and not pool_writes(B):
+            good = c.name
+            break
+    chk.expect(pair and good is not None, "CUT-create", "pool_manager/CreatePool [no duplicate denom]",
+               "a pairwise comparison of asset_denoms decides, and its rejecting verdict cuts the creating save (%s)" % good,
+               "no decision comparing asset_denoms pairwise cuts pool creation (pairwise comparison found: %s, cutting guard: %s): duplicate assets "
+               "can be accepted" % (pair, good), A.entry)
 
 
 def vget_path(v, path):
